@@ -156,7 +156,7 @@ func init() {
 			return 60 * time.Second
 		},
 		Run:        runC27,
-		FaultKinds: []string{"fragmented_delivery", "zero_byte_reads"},
+		FaultKinds: []string{"fragmented_delivery", "zero_byte_reads", "earlier_source_abandoned_midway"},
 		ProbeNames: []string{"entry_EvalReader", "entry_EvalFile", "entry_REPL", "marker_undefined", "marker_parse", "marker_breakpoint", "chunks_before_marker"},
 		RealVsStub: []string{
 			"real: Interp.EvalReader / EvalFile / ReadParseEvalPrint, Interp.Read line counter, parser positions, the file set with line offsets (go/etoken), the real fast/debug.Debugger printing its stop position",
@@ -180,6 +180,23 @@ func runC27(t *testing.T, ch *sim.Choices, tier string) (o Outcome) {
 	if st.Kind == "breakpoint" {
 		g.Options |= base.OptDebugger
 		ir.SetDebugger(&debug.Debugger{})
+	}
+	if entry != 2 && gen.Draw(4) == 0 {
+		// the interpreter has a history: an earlier source was abandoned in the middle because
+		// one of its chunks failed and panics are not trapped (gomacro --no-trap). Positions
+		// in the next source count from its own first line.
+		o.fault("earlier_source_abandoned_midway", 1)
+		g.Options &^= base.OptTrapPanic
+		prev := "var p1 = 1\n\nvar p2 = 2\nvar p3 = undefinedPrev +\n\t1\nvar p4 = 4\n"
+		if gen.Draw(2) == 0 {
+			prev = "var p1 = 1\nfunc pf() int {\n\treturn 1 / (p1 - 1)\n}\nvar p2 = pf()\nvar p3 = 3\nvar p4 = 4\n"
+		}
+		func() {
+			defer func() { recover() }()
+			ir.EvalReader(strings.NewReader(prev))
+		}()
+		g.Options |= base.OptTrapPanic
+		out.Reset()
 	}
 	wantFile := "repl.go"
 	f := sim.StreamFaults{CutAt: -1, ErrAt: -1}
